@@ -211,8 +211,11 @@ class Input(object):
         else:
             self.output_n_int = int.from_bytes(output_n, 'big')
             self.output_n = output_n
-        self.unlocking_script = b'' if unlocking_script is None else to_bytes(unlocking_script)
-        self.locking_script = b'' if locking_script is None else to_bytes(locking_script)
+        # scripts given as bytes are raw scripts (to_bytes would read bytes that happen to be ASCII hex digits as hex text)
+        self.unlocking_script = b'' if unlocking_script is None else \
+            unlocking_script if isinstance(unlocking_script, bytes) else to_bytes(unlocking_script)
+        self.locking_script = b'' if locking_script is None else \
+            locking_script if isinstance(locking_script, bytes) else to_bytes(locking_script)
         self.script = None
         self.hash_type = SIGHASH_ALL
         if isinstance(sequence, numbers.Number):
@@ -638,7 +641,8 @@ class Output(object):
         if not isinstance(network, Network):
             self.network = Network(network)
         self.value = value_to_satoshi(value, network=network)
-        self.lock_script = b'' if lock_script is None else to_bytes(lock_script)
+        # a script given as bytes is a raw script (to_bytes would read bytes that happen to be ASCII hex digits as hex text)
+        self.lock_script = b'' if lock_script is None else lock_script if isinstance(lock_script, bytes) else to_bytes(lock_script)
         self.public_hash = to_bytes(public_hash)
         if isinstance(address, Address):
             self._address = address.address
@@ -1925,7 +1929,8 @@ class Transaction(object):
         :return int: Transaction output number (output_n)
         """
 
-        lock_script = to_bytes(lock_script)
+        if not isinstance(lock_script, bytes):
+            lock_script = to_bytes(lock_script)
         if output_n is None:
             output_n = len(self.outputs)
         if not float(value).is_integer():
